@@ -90,6 +90,13 @@ def ncf2lateral_boundary(ncffile, outpath):
     time_hdr['etime'] = time + 1.
     time_hdr['iedate'] += (time_hdr['etime'] // 24).astype('i')
     time_hdr['etime'] -= (time_hdr['etime'] // 24) * 24
+    # YYJJJ: an end date past the last day of its year starts the next
+    # year (two digit years 70-69: leap iff divisible by four)
+    ylen = np.where((time_hdr['iedate'] // 1000) % 4 == 0, 366, 365)
+    time_hdr['iedate'] = np.where(
+        time_hdr['iedate'] % 1000 > ylen,
+        (time_hdr['iedate'] // 1000 + 1) % 100 * 1000 + 1,
+        time_hdr['iedate'])
     emiss_hdr['ibdate'] = time_hdr['ibdate'][0]
     emiss_hdr['btime'] = time_hdr['btime'][0]
     emiss_hdr['iedate'] = time_hdr['iedate'][-1]
